@@ -445,7 +445,7 @@ def EXHAUSTIVE(tier):
 
 def plan(tier, seed):
     jobs = [("fixed", {"part": i, "parts": 6}) for i in range(6)]
-    n, k, ml = (120, 8, 30) if tier == "quick" else (4000, 10, 80)
+    n, k, ml = (300, 10, 30) if tier == "quick" else (4000, 10, 80)
     jobs += [("hyp_shard", {"n": n, "seed": derive_seed(seed, PROPERTY, i), "maxlen": ml}) for i in range(k)]
     return jobs
 
